@@ -105,7 +105,7 @@ PROPS = {
     },
     "C14": {
         "extra_imports": ["Gofasta.Lemmas.GffRowOrder", "Gofasta.Lemmas.RegionEquiv", "Gofasta.Lemmas.GffRoundTrip", "Gofasta.Lemmas.GbRoundTrip", "Gofasta.Lemmas.FromBytes", "Gofasta.Lemmas.FromBytesGb"],
-        "extra_theorems": ["Gofasta.Lemmas.GffRowOrder.sortRows_eq", "Gofasta.Lemmas.GffRowOrder.sortRows_of_sorted", "Gofasta.Lemmas.GffRowOrder.sortRows_perm", "Gofasta.Lemmas.GffRowOrder.regionFromGFF_any_order", "Gofasta.Lemmas.GffRowOrder.regionFromGFF_reverse", "Gofasta.Lemmas.GffRowOrder.regionsFromGFF_any_order", "Gofasta.Lemmas.GffRowOrder.regionsFromGFF_blocks_any_order", "Gofasta.Lemmas.GffRowOrder.old_order_dependent", "Gofasta.Lemmas.GffRowOrder.new_two_orders", "Gofasta.Lemmas.GffRowOrder.same_start_order_dependent", "Gofasta.Lemmas.RegionEquiv.genbank_region'", "Gofasta.Lemmas.RegionEquiv.genbank_region", "Gofasta.Lemmas.RegionEquiv.gff_region", "Gofasta.Lemmas.RegionEquiv.region_equiv", "Gofasta.Lemmas.RegionEquiv.fields_equiv", "Gofasta.Lemmas.RegionEquiv.oriented_of_asc", "Gofasta.Lemmas.RegionEquiv.faithful_long", "Gofasta.Lemmas.RegionEquiv.oriented_of_asc_faithful", "Gofasta.Lemmas.RegionEquiv.genbank_annotation", "Gofasta.Lemmas.RegionEquiv.gff_annotation", "Gofasta.Lemmas.RegionEquiv.annotation_equiv", "Gofasta.Lemmas.RegionEquiv.codes_perm", "Gofasta.Lemmas.RegionEquiv.variants_perm", "Gofasta.Lemmas.RegionEquiv.variants_equiv", "Gofasta.Lemmas.RegionEquiv.variants_equiv_asc", "Gofasta.Lemmas.RegionEquiv.both_succeed", "Gofasta.Lemmas.RegionEquiv.annotation_equal_of_sorted", "Gofasta.Lemmas.RegionEquiv.getAAsPair_congr", "Gofasta.Lemmas.RegionEquiv.aas_equiv_weak", "Gofasta.Lemmas.GffRT.parseFeature_renderRow", "Gofasta.Lemmas.GffRT.scanLines_render", "Gofasta.Lemmas.GffRT.gff_roundtrip", "Gofasta.Lemmas.GffRT.gff_roundtrip_canonical", "Gofasta.Lemmas.GffRT.toFeature_raw_iff", "Gofasta.Lemmas.GffRT.gff_roundtrip_exact", "Gofasta.Lemmas.GffRT.gff_roundtrip_escaped_differs", "Gofasta.Lemmas.GffRT.long_line_stops_reading", "Gofasta.Lemmas.GffRT.finding_escape_not_decoded", "Gofasta.Lemmas.GffRT.finding_hyphen_in_seqid", "Gofasta.Lemmas.GffRT.finding_fasta_contigs", "Gofasta.Lemmas.GffRT.sample_roundtrip", "Gofasta.Lemmas.GbRT.getPositions_render", "Gofasta.Lemmas.GbRT.parse_render", "Gofasta.Lemmas.GbRT.render_parse", "Gofasta.Lemmas.GbRT.getPositions_of_parse", "Gofasta.Lemmas.GbRT.unNest_fuel", "Gofasta.Lemmas.GbRT.atoi_forget", "Gofasta.Lemmas.GbRT.parseFeatures_render", "Gofasta.Lemmas.GbRT.gb_roundtrip", "Gofasta.Lemmas.FromBytes.gffRowsOfText_renderText", "Gofasta.Lemmas.FromBytes.gff_annotation_from_bytes", "Gofasta.Lemmas.FromBytes.annotation_equiv_from_bytes", "Gofasta.Lemmas.FromBytes.variants_equiv_from_bytes", "Gofasta.Lemmas.FromBytes.both_succeed_from_bytes", "Gofasta.Lemmas.FromBytes.fasta_section_agrees", "Gofasta.Lemmas.FromBytes.gff_fasta_from_bytes", "Gofasta.Lemmas.FromBytesGb.features_from_text", "Gofasta.Lemmas.FromBytesGb.regions_from_text", "Gofasta.Lemmas.FromBytesGb.region_of_feat", "Gofasta.Lemmas.FromBytesGb.isReverse_of_positions", "Gofasta.Lemmas.FromBytesGb.gbFeaturesOfText_render_of", "Gofasta.Lemmas.FromBytesGb.gbFeaturesOfText_render", "Gofasta.Lemmas.FromBytesGb.genbank_annotation_from_bytes", "Gofasta.Lemmas.FromBytesGb.annotation_equiv_from_two_files", "Gofasta.Lemmas.FromBytesGb.variants_equiv_from_two_files", "Gofasta.Lemmas.FromBytesGb.both_succeed_from_two_files", "Gofasta.Lemmas.FromBytesGb.annotation_equal_from_two_files", "Gofasta.Lemmas.FromBytesGb.exFile_ok"],
+        "extra_theorems": ["Gofasta.Lemmas.GffRowOrder.sortRows_eq", "Gofasta.Lemmas.GffRowOrder.sortRows_of_sorted", "Gofasta.Lemmas.GffRowOrder.sortRows_perm", "Gofasta.Lemmas.GffRowOrder.regionFromGFF_any_order", "Gofasta.Lemmas.GffRowOrder.regionFromGFF_reverse", "Gofasta.Lemmas.GffRowOrder.regionsFromGFF_any_order", "Gofasta.Lemmas.GffRowOrder.regionsFromGFF_blocks_any_order", "Gofasta.Lemmas.GffRowOrder.old_order_dependent", "Gofasta.Lemmas.GffRowOrder.new_two_orders", "Gofasta.Lemmas.GffRowOrder.same_start_order_dependent", "Gofasta.Lemmas.RegionEquiv.genbank_region'", "Gofasta.Lemmas.RegionEquiv.genbank_region", "Gofasta.Lemmas.RegionEquiv.gff_region", "Gofasta.Lemmas.RegionEquiv.region_equiv", "Gofasta.Lemmas.RegionEquiv.fields_equiv", "Gofasta.Lemmas.RegionEquiv.oriented_of_asc", "Gofasta.Lemmas.RegionEquiv.faithful_long", "Gofasta.Lemmas.RegionEquiv.oriented_of_asc_faithful", "Gofasta.Lemmas.RegionEquiv.genbank_annotation", "Gofasta.Lemmas.RegionEquiv.gff_annotation", "Gofasta.Lemmas.RegionEquiv.annotation_equiv", "Gofasta.Lemmas.RegionEquiv.codes_perm", "Gofasta.Lemmas.RegionEquiv.variants_perm", "Gofasta.Lemmas.RegionEquiv.variants_equiv", "Gofasta.Lemmas.RegionEquiv.variants_equiv_asc", "Gofasta.Lemmas.RegionEquiv.both_succeed", "Gofasta.Lemmas.RegionEquiv.annotation_equal_of_sorted", "Gofasta.Lemmas.RegionEquiv.getAAsPair_congr", "Gofasta.Lemmas.RegionEquiv.aas_equiv_weak", "Gofasta.Lemmas.GffRT.parseFeature_renderRow", "Gofasta.Lemmas.GffRT.scanLines_render", "Gofasta.Lemmas.GffRT.gff_roundtrip", "Gofasta.Lemmas.GffRT.gff_roundtrip_canonical", "Gofasta.Lemmas.GffRT.toFeature_raw_iff", "Gofasta.Lemmas.GffRT.gff_roundtrip_exact", "Gofasta.Lemmas.GffRT.gff_roundtrip_escaped_differs", "Gofasta.Lemmas.GffRT.long_line_reported", "Gofasta.Lemmas.GffRT.long_line_never_ok", "Gofasta.Lemmas.GffRT.short_lines_unchanged", "Gofasta.Lemmas.GbRT.gb_long_line_reported", "Gofasta.Lemmas.GbRT.gb_short_lines_unchanged", "Gofasta.Lemmas.GffRT.finding_escape_not_decoded", "Gofasta.Lemmas.GffRT.finding_hyphen_in_seqid", "Gofasta.Lemmas.GffRT.finding_fasta_contigs", "Gofasta.Lemmas.GffRT.sample_roundtrip", "Gofasta.Lemmas.GbRT.getPositions_render", "Gofasta.Lemmas.GbRT.parse_render", "Gofasta.Lemmas.GbRT.render_parse", "Gofasta.Lemmas.GbRT.getPositions_of_parse", "Gofasta.Lemmas.GbRT.unNest_fuel", "Gofasta.Lemmas.GbRT.atoi_forget", "Gofasta.Lemmas.GbRT.parseFeatures_render", "Gofasta.Lemmas.GbRT.gb_roundtrip", "Gofasta.Lemmas.FromBytes.gffRowsOfText_renderText", "Gofasta.Lemmas.FromBytes.gff_annotation_from_bytes", "Gofasta.Lemmas.FromBytes.annotation_equiv_from_bytes", "Gofasta.Lemmas.FromBytes.variants_equiv_from_bytes", "Gofasta.Lemmas.FromBytes.both_succeed_from_bytes", "Gofasta.Lemmas.FromBytes.fasta_section_agrees", "Gofasta.Lemmas.FromBytes.gff_fasta_from_bytes", "Gofasta.Lemmas.FromBytesGb.features_from_text", "Gofasta.Lemmas.FromBytesGb.regions_from_text", "Gofasta.Lemmas.FromBytesGb.region_of_feat", "Gofasta.Lemmas.FromBytesGb.isReverse_of_positions", "Gofasta.Lemmas.FromBytesGb.gbFeaturesOfText_render_of", "Gofasta.Lemmas.FromBytesGb.gbFeaturesOfText_render", "Gofasta.Lemmas.FromBytesGb.genbank_annotation_from_bytes", "Gofasta.Lemmas.FromBytesGb.annotation_equiv_from_two_files", "Gofasta.Lemmas.FromBytesGb.variants_equiv_from_two_files", "Gofasta.Lemmas.FromBytesGb.both_succeed_from_two_files", "Gofasta.Lemmas.FromBytesGb.annotation_equal_from_two_files", "Gofasta.Lemmas.FromBytesGb.exFile_ok"],
         "cli": True,
         "streams": {"C14": (500, 8000), "C14gff": (600, 6000), "C14gb": (600, 6000), "C14gfffuzz": (0, 30), "C14gbfuzz": (0, 30)},
         "thorough_seeds": 3,
